@@ -42,6 +42,14 @@ def build_model(ctx):
     return exe
 
 
+def build_cuckoo(ctx):
+    return vcheck.cxx_build(os.path.join(vcheck.VERIF, "harness/C17/cuckoo.cpp"), os.path.join(ctx.work, "h", "cuckoo"), hook=False, link_cds=False)
+
+
+def build_others(ctx):
+    return vcheck.cxx_build(os.path.join(vcheck.VERIF, "harness/C17/others.cpp"), os.path.join(ctx.work, "h", "others"), hook=False)
+
+
 # ------------------------------------------------------------------------------------------------ cuckoo cases
 
 HASH_KINDS = ["constant", "two-valued", "prefix-sharing", "identity", "few-values", "t1-low-t2-high", "random16", "one-table-constant"]
@@ -152,6 +160,31 @@ def run_impl(exe, cases, path, timeout=120):
     return parse_out(out), rc
 
 
+def run_batches(exe, cases, writer, workdir, tag, batch=250, timeout=30, max_failures=3):
+    """Run the real container over the cases in batches under a watchdog (address-space limit + timeout).  A case
+    that does not reach `endcase` (hang, crash, memory blow-up) ends its batch; the run continues behind it.
+    -> (parsed outputs, list of ids of cases that did not finish)"""
+    out = {}; failed = []
+    pending = list(cases); nb = 0
+    while pending and len(failed) < max_failures:
+        part = pending[:batch]
+        path = os.path.join(workdir, "%s_impl_%d.txt" % (tag, nb)); nb += 1
+        writer(path, part)
+        rc, txt = vcheck.sh("ulimit -v 6000000; timeout %d %s < %s" % (timeout, exe, path), timeout=timeout + 30)
+        o = parse_out(txt); out.update(o)
+        ndone = 0
+        for c in part:
+            if o.get(c["id"], {}).get("done"): ndone += 1
+            else: break
+        if ndone < len(part):
+            failed.append(part[ndone]["id"])
+            out.setdefault(part[ndone]["id"], {"ops": [], "final": None, "done": False, "extra": []})
+            pending = pending[ndone + 1:]
+        else:
+            pending = pending[len(part):]
+    return out, failed
+
+
 def cut_for_impl(c, m):
     """The part of a case that is safe to run on the real code: stop before the first operation on which the model
     runs out of fuel (the C++ insert/resize loop would not terminate) or grows the tables beyond 2^LG_CAP."""
@@ -197,27 +230,28 @@ def compare_cuckoo(c, m, r):
     return None
 
 
-def minimise(ctx, model, exe, c, pred):
-    """Greedy shrinking of a case (drop operations, then unused keys are kept: the hash tables stay)."""
+def minimise(c, fails, budget=80):
+    """Greedy shrinking of a failing case: cut behind the failing operation, then drop single operations, as long as
+    `fails(case)` (which re-runs model and real container on the candidate) stays true."""
     cur = c
-    improved = True
     n = 0
-    while improved and n < 200:
+    improved = True
+    while improved and n < budget:
         improved = False
         nops = len(cur["ops"]) // 2
         for j in range(nops - 1, -1, -1):
+            if n >= budget: break
             cand = dict(cur); cand["ops"] = cur["ops"][:2 * j] + cur["ops"][2 * j + 2:]
             n += 1
-            if pred(cand):
+            if cand["ops"] and fails(cand):
                 cur = cand; improved = True
                 break
     return cur
 
 
-def cuckoo_part(ctx, model, cov):
-    exe = vcheck.cxx_build(os.path.join(vcheck.VERIF, "harness/C17/cuckoo.cpp"), os.path.join(ctx.work, "h", "cuckoo"), hook=False)
-    rng = ctx.rng.fork()
-    ngen = 6000 if ctx.thorough() else 1500
+def cuckoo_part(ctx, model, cov, rng):
+    exe = build_cuckoo(ctx)
+    ngen = 30000 if ctx.thorough() else 4000
     cases = []
     cdir = os.path.join(vcheck.VERIF, "corpus", "C17")
     for f in sorted(os.listdir(cdir)) if os.path.isdir(cdir) else []:
@@ -239,22 +273,7 @@ def cuckoo_part(ctx, model, cov):
         c2, why = cut_for_impl(c, mout.get(c["id"], {"ops": []}))
         cut.append(c2)
         if why: why_hist[why] = why_hist.get(why, 0) + 1
-    # real code, in batches so that a hang or crash costs one batch
-    rout = {}
-    B = 250
-    bad_batches = []
-    for b in range(0, len(cut), B):
-        part = cut[b:b + B]
-        out, rc = run_impl(exe, part, os.path.join(ctx.work, "cuckoo_impl_%d.txt" % (b // B)))
-        rout.update(out)
-        if rc != 0:
-            bad_batches.append((b, rc))
-            # continue after the case that did not finish
-            done = [c for c in part if out.get(c["id"], {}).get("done")]
-            rest = [c for c in part if c["id"] not in out]
-            if rest:
-                out2, rc2 = run_impl(exe, rest, os.path.join(ctx.work, "cuckoo_impl_%d_b.txt" % (b // B)))
-                rout.update(out2)
+    rout, bad_batches = run_batches(exe, cut, write_cases, ctx.work, "cuckoo")
     stats = {"agree": 0, "diverged": 0, "with_drop": 0, "ops_compared": 0, "resizes": 0, "lost_keys_predicted_and_observed": 0}
     hk_hist = {}; cfg_hist = {}; ops_hist = {"insert": 0, "erase": 0, "find": 0}; drop_hist = {}
     distinct = set(); first_div = None; drop_cases = []
@@ -291,6 +310,18 @@ def cuckoo_part(ctx, model, cov):
             drop_cases.append(c2)
     if first_div is not None:
         c2, d, m, r = first_div
+        def one(cand):
+            cand = dict(cand, id="min")
+            mo = run_model(model, [cand], os.path.join(ctx.work, "cuckoo_min_m.txt")).get("min")
+            if not mo: return None
+            cc, _ = cut_for_impl(cand, mo)
+            ro, _ = run_batches(exe, [cc], write_cases, ctx.work, "cuckoo_min", timeout=20)
+            return cc, compare_cuckoo(cc, mo, ro.get("min")), mo, ro.get("min")
+        cut_at = dict(c2); cut_at["ops"] = c2["ops"][:2 * (d.get("op", 0) + 1)]
+        small = minimise(cut_at if (one(cut_at) or (0, None))[1] else c2, lambda cand: (one(cand) or (0, None))[1] is not None)
+        again = one(small)
+        if again and again[1] is not None:
+            c2, d, m, r = again[0], again[1], again[2], again[3]
         ideal = ideal_sets(c2, m)
         j = d.get("op", 0)
         kind = "contents of the real CuckooSet differ from the sequential model"
@@ -306,6 +337,7 @@ def cuckoo_part(ctx, model, cov):
         smallest = min(drop_cases, key=lambda c: (len(c["ops"]), sum(map(sum, c["hash"]))))
         ctx.violation(KNOWN_WHAT, {"case": smallest, "note": "real container and model agree on every operation; the model's resize reports the dropped elements"},
                       signature=KNOWN_SIG)
+    cov["samples"] = [dict(c, hash=c["hash"]) for c in cut[ncorpus:ncorpus + 2]] + ([smallest] if drop_cases else [])
     cov["cuckoo"] = {"cases": len(cases), "corpus_cases": ncorpus, "stats": stats, "hash_kinds": hk_hist, "config_kinds": len(cfg_hist),
                      "config_hist_top": dict(sorted(cfg_hist.items(), key=lambda kv: -kv[1])[:12]), "ops": ops_hist,
                      "not_run_on_real_code": why_hist, "drop_cases_by_config": drop_hist, "watchdog_batches": bad_batches,
@@ -375,7 +407,10 @@ def gen_other_case(rng, cid, family):
         if hk == "duplicates": hk = "few-values"
         ht = gen_hash1(rng, hk, n, 16)
     elif family == "split":
-        cfg = [rng.choice([1, 2, 4, 8, 64, 1024]), 1 + rng.below(2), rng.below(2), rng.below(2)]
+        lf = 1 + rng.below(2)
+        # the bucket table needs capacity ceil2(items / load factor) >= 2: the list starts with 2 buckets whatever the table
+        # size is (static table of capacity 1: init_bucket(1) never returns — an input the code does not reject)
+        cfg = [rng.choice([2, 4, 4, 8, 16, 64, 1024]) * lf, lf, rng.below(2), rng.below(2)]
         n = 4 + rng.below(40)
         if hk == "duplicates": hk = "few-values"
         ht = gen_hash1(rng, hk, n, 32)
@@ -409,10 +444,9 @@ def set_model(c):
     return out, sorted(cur.values())
 
 
-def other_part(ctx, model, cov):
-    exe = vcheck.cxx_build(os.path.join(vcheck.VERIF, "harness/C17/others.cpp"), os.path.join(ctx.work, "h", "others"), hook=False)
-    rng = ctx.rng.fork()
-    per = 1500 if ctx.thorough() else 400
+def other_part(ctx, model, cov, rng):
+    exe = build_others(ctx)
+    per = 10000 if ctx.thorough() else 1200
     cases = []
     cdir = os.path.join(vcheck.VERIF, "corpus", "C17")
     for f in sorted(os.listdir(cdir)) if os.path.isdir(cdir) else []:
@@ -443,22 +477,7 @@ def other_part(ctx, model, cov):
             run_cases.append(c2)
         else:
             run_cases.append(c)
-    rout = {}
-    B = 300
-    bad_batches = []
-    for b in range(0, len(run_cases), B):
-        part = run_cases[b:b + B]
-        path = os.path.join(ctx.work, "others_impl_%d.txt" % (b // B))
-        write_other_cases(path, part)
-        rc, out = vcheck.sh("ulimit -v 6000000; timeout 120 %s < %s" % (exe, path), timeout=150)
-        o = parse_out(out); rout.update(o)
-        if rc != 0:
-            bad_batches.append((b, rc))
-            rest = [c for c in part if c["id"] not in o]
-            if rest:
-                write_other_cases(path + ".b", rest)
-                rc2, out2 = vcheck.sh("ulimit -v 6000000; timeout 120 %s < %s" % (exe, path + ".b"), timeout=150)
-                rout.update(parse_out(out2))
+    rout, bad_batches = run_batches(exe, run_cases, write_other_cases, ctx.work, "others", batch=300)
     fam_stats = {}
     distinct = set()
     for c in run_cases:
@@ -499,7 +518,7 @@ def other_part(ctx, model, cov):
                                 d = {"op": j, "field": "%s (extracted StripedSeq model)" % f, "model": m["ops"][j][f], "impl": r["ops"][j][f]}
                                 break
                         if d: break
-                    if d is None and len(m["ops"]) == len(c["ops"]) // 2 == len(ref) and m["final"] != r["final"] and c["cfg"][3] != 1:
+                    if d is None and len(m["ops"]) == len(c["ops"]) // 2 == len(ref) and m["final"] != r["final"] and c["cfg"][3] == 0:
                         d = {"op": len(ref), "field": "final layout (clear_and_dispose order)", "model": m["final"], "impl": r["final"]}
                     if r["ops"] and r["ops"][-1]["lg"] > c["cfg"][0]:
                         fs["grew"] += 1; distinct.add(json.dumps([fam, c["cfg"], c["hash"], c["ops"]]))
@@ -510,6 +529,27 @@ def other_part(ctx, model, cov):
             fs["agree"] += 1
         else:
             fs["diverged"] += 1
+            if fs["diverged"] == 1 and "lg" not in str(d.get("field", "")) and "layout" not in str(d.get("field", "")):
+                def diff_of(cand):
+                    cand = dict(cand, id="min")
+                    ro, _ = run_batches(exe, [cand], write_other_cases, ctx.work, "others_min", timeout=20)
+                    rr = ro.get("min"); ref2, fin2 = set_model(cand)
+                    if rr is None or not rr["done"]: return {"op": 0, "what": "real container did not finish the case"}, rr
+                    for j2, a2 in enumerate(ref2):
+                        for f2 in ("res", "size", "found"):
+                            if j2 >= len(rr["ops"]) or a2[f2] != rr["ops"][j2][f2]:
+                                return {"op": j2, "field": f2, "set_semantics": a2[f2], "impl": rr["ops"][j2][f2] if j2 < len(rr["ops"]) else None,
+                                        "operation": cand["ops"][2 * j2:2 * j2 + 2],
+                                        "lost_keys": sorted(set(a2["found"]) - set(rr["ops"][j2]["found"])) if f2 == "found" and j2 < len(rr["ops"]) else None}, rr
+                    if sorted(rr["final"] or []) != fin2:
+                        return {"op": len(ref2), "field": "iteration", "set_semantics": fin2, "impl": sorted(rr["final"] or []), "lost_keys": sorted(set(fin2) - set(rr["final"] or []))}, rr
+                    return None, rr
+                start = dict(c); start["ops"] = c["ops"][:2 * (d.get("op", 0) + 1)]
+                if diff_of(start)[0] is None: start = c
+                small = minimise(start, lambda cand: diff_of(cand)[0] is not None)
+                d2, r2 = diff_of(small)
+                if d2 is not None:
+                    c, d, r = small, d2, r2
             names = {"striped": "StripedSet (internal_resize)", "split": "SplitListSet (bucket table growth / init_bucket)", "feldman": "FeldmanHashSet (expand_slot)"}
             if d.get("lost_keys"):
                 what = "%s lost keys during growth: an element inserted successfully is no longer found" % names[fam]
@@ -544,18 +584,37 @@ def model_search(ctx, model, cov):
 
 
 def run(ctx):
-    res = vcheck.coq_build(["Properties/Properties_C17.v"])
+    from concurrent.futures import ThreadPoolExecutor
+    with ThreadPoolExecutor(max_workers=4) as ex:
+        f_coq = ex.submit(vcheck.coq_build, ["Properties/Properties_C17.v"])
+        # the cuckoo harness needs nothing from libcds.a; only one thread may build libcds (vcheck.libcds is per process)
+        f_h1 = ex.submit(build_cuckoo, ctx)
+        f_h2 = ex.submit(build_others, ctx)
+        res = f_coq.result()
+        f_h1.result(); f_h2.result()      # BuildError propagates to bin/check
     ctx.coq_evidence(res)
+    if ctx.thorough() and res.ok:
+        rc_chk, out_chk = vcheck.coqchk("LV.Properties.Properties_C17")
+        ctx.coverage["coqchk"] = {"rc": rc_chk, "axioms": re.findall(r"\* Axioms: (.*)", out_chk)[:1], "tail": out_chk[-300:] if rc_chk != 0 else ""}
+        if rc_chk != 0:
+            ctx.violation("coqchk rejects LV.Properties.Properties_C17", {"coqchk": out_chk[-1500:]}, no_input=True)
     model = build_model(ctx)
     cov = {}
-    nsearch = 0 if ctx.replay else model_search(ctx, model, cov)
-    n1, d1 = cuckoo_part(ctx, model, cov) or (0, 0)
-    n2, d2 = other_part(ctx, model, cov)
+    rng_c = ctx.rng.fork(); rng_o = ctx.rng.fork()      # all random choices derive from ctx.rng (VERIF_SEED)
+    with ThreadPoolExecutor(max_workers=3) as ex:
+        f_s = ex.submit(lambda: 0 if ctx.replay else model_search(ctx, model, cov))
+        f_c = ex.submit(cuckoo_part, ctx, model, cov, rng_c)
+        f_o = ex.submit(other_part, ctx, model, cov, rng_o)
+        nsearch = f_s.result()
+        n1, d1 = f_c.result() or (0, 0)
+        n2, d2 = f_o.result()
     if not res.ok:
         ctx.violation("Coq obligations of C17 do not check: %s" % (res.failed[:2],), {"theorem": [f[2] for f in res.failed], "errors": res.failed[:3]}, no_input=True)
     ctx.coverage.update(cov)
     ctx.coverage.update({"evaluations": n1 + n2, "distinct_nontrivial": d1 + d2, "model_side_exhaustive_assignments": nsearch,
                          "rule": "a case = family x configuration x hash lookup table(s) x operation sequence, run on the real container and compared after every operation; non-trivial = distinct case in which the container grew at least once (cuckoo/striped: bucket_count doubled; split-list/Feldman: more than 2 elements, i.e. bucket-table growth / slot expansion possible)",
-                         "samples": cov.get("samples", [])})
-    return ctx.finish(vcheck.STD_TRUSTED + ["ocaml/c17_main.ml (case parsing / printing)", "harness/C17/*.cpp"],
-                      ["one thread: locks always succeed", "capacities are powers of two (the constructors apply ceil2)"])
+                         "samples": cov.pop("samples", [])})
+    return ctx.finish(vcheck.STD_TRUSTED + ["ocaml/c17_main.ml (case parsing / printing)", "harness/C17/*.cpp", "lookup-table hash functors stand for arbitrary hash functions on the executions explored (the theorems quantify over all functions)"],
+                      ["one thread: every lock acquisition succeeds", "capacities are powers of two (the constructors apply ceil2)",
+                       "CuckooSet: no two equal keys are in the set when resize() runs (C++ resize() reads uninitialised positions otherwise); holds on reachable tables (C17_cuckoo_nodup)",
+                       "split-list / Feldman structural models are tied to the code by reading only; their observable behaviour is compared against plain set semantics"])
